@@ -68,21 +68,21 @@ def accessOp (env : TEnv) (h : Heap) (op : String) (cur arg : Val) :
 
 structure TOut where
   res : Except TErr Val
-  touched : List Nat        -- part indices whose access primitive ran, in order
+  touched : List (Nat × Val)  -- (part index, value accessed) for every access primitive that ran, in order
   deriving Repr
 
 /-- the `while i < fetch_till` loop of `_t_eval` on the flat ops tuple -/
-def tLoop (env : TEnv) (h : Heap) (flat : List Val) (i : Nat) (cur : Val) (tr : List Nat) : TOut :=
+def tLoop (env : TEnv) (h : Heap) (flat : List Val) (i : Nat) (cur : Val) (tr : List (Nat × Val)) : TOut :=
   if _hlt : i < flat.length then
     match flat[i]?, flat[i+1]? with
     | some (.str op), some arg =>
       match accessOp env h op cur arg with
-      | some (.ok (.ok v)) => tLoop env h flat (i + 2) v (tr ++ [i / 2])
+      | some (.ok (.ok v)) => tLoop env h flat (i + 2) v (tr ++ [(i / 2, cur)])
       | some (.ok (.error e)) =>
         match dispatchOf env op with
         | some (_, caught) =>
-          if caughtBy env caught e then ⟨.error (.pae (i / 2) e), tr ++ [i / 2]⟩
-          else ⟨.error (.raised e), tr ++ [i / 2]⟩
+          if caughtBy env caught e then ⟨.error (.pae (i / 2) e), tr ++ [(i / 2, cur)]⟩
+          else ⟨.error (.raised e), tr ++ [(i / 2, cur)]⟩
         | none => ⟨.error .badSpec, tr⟩
       | some (.error te) => ⟨.error te, tr⟩
       | none => ⟨.error .badSpec, tr⟩
